@@ -98,11 +98,14 @@ xp1 == N("Sum", << vx, KI(1) >>)
 cond == Cmp(V("lhs"), "<=", KI(0))
 oldx == User("C17Old", << "o" >>, << vx >>)
 pairx == User("C17Pair", << "tg" >>, << vx, KI(1) >>)
-E(e) == [e |-> e, kind |-> "expr", vars |-> << >>, rest |-> << >>]
+E(e) == [e |-> e, kind |-> "expr", vars |-> << >>, rest |-> << >>, np |-> FALSE]
+\* the same expression with its float constants given as numpy scalars (numpy.float64): equal to,
+\* and structurally the same as, the plain one - the persistent key normalises numpy scalars
+ENP(e) == [e |-> e, kind |-> "expr", vars |-> << >>, rest |-> << >>, np |-> TRUE]
 \* rest: the variables the expression uses beyond the listed ones, written down in
 \* lexicographic order (TLC cannot order strings; CatalogueSane checks it is a
 \* duplicate-free enumeration of exactly those variables)
-C(e, vars, rest) == [e |-> e, kind |-> "compiled", vars |-> vars, rest |-> rest]
+C(e, vars, rest) == [e |-> e, kind |-> "compiled", vars |-> vars, rest |-> rest, np |-> FALSE]
 
 Cat == <<
   (* 1*) E(vx),
@@ -185,7 +188,10 @@ Cat == <<
   \* sort would tie T/t and fall back to a seed-dependent set order
   (*70*) C(N("Sum", << N("Product", << KI(2), V("T") >>), N("Product", << KI(3), V("t") >>),
                        N("Product", << KI(5), V("a") >>) >>),
-           << >>, << "T", "a", "t" >>)
+           << >>, << "T", "a", "t" >>),
+  (*71*) ENP(B("Power", vx, K(FltV(3, 2)))),                    \* same structure as (11), numpy constant
+  (*72*) ENP(N("Product", << K(FltV(5, 2)), vy, Look(V("obj"), "attr") >>)),
+  (*73*) E(N("Product", << K(FltV(5, 2)), vy, Look(V("obj"), "attr") >>))
 >>
 NCat == Len(Cat)
 CatIds == 1..NCat
@@ -196,7 +202,7 @@ CatIds == 1..NCat
 \* through the values the compiled function computes (CompiledValue)
 ObjPyEq(i, j) == /\ Cat[i].kind = Cat[j].kind
                  /\ PyEq(Cat[i].e, Cat[j].e)
-ObjSameStruct(i, j) == Cat[i] = Cat[j]
+ObjSameStruct(i, j) == [Cat[i] EXCEPT !.np = FALSE] = [Cat[j] EXCEPT !.np = FALSE]
 
 \* canonical representative (least index) of the == class / of the structure
 CanonTab  == [i \in CatIds |->
